@@ -25,6 +25,24 @@ extern "C" void c13_run()
       c13_query(numTaskingThreads());
       break;
     }
+    case C13_NESTED: {
+      if (!inited)
+        break;
+      int cost = op.cost, inner = op.n;
+      c13_loop_begin(op.n);
+      {
+        SimTag t(SIM_TAG_SUT);
+        parallel_for(3, [cost, inner](int) {
+          parallel_for(inner, [cost](int) {
+            c13_body_enter();
+            sim_work((uint32_t)cost);
+            c13_body_exit();
+          });
+        });
+      }
+      c13_loop_end();
+      break;
+    }
     case C13_LOOP: {
       if (!inited)
         break;  // the internal back end initialises itself lazily; keep histories comparable across lanes
